@@ -5,6 +5,7 @@
   loops, one per record, one per EDNS option — counted on failing paths too.
 -/
 import DnsModel.Lemmas.StepsBound
+import DnsModel.Tie.Name
 namespace Dns.C18
 open Dns Cnt Sector Res
 
@@ -83,6 +84,18 @@ theorem steps_linear (p : Bytes) : (parseI p).steps ≤ 80 * p.length + 1200 := 
   | err e => simp
   | panic => simp
   | diverge => simp
+
+
+/-! ### Tie to the current source text: the counted walkers compute what the translated validators compute
+(`Generated/TrName.lean`, rewritten by rs2lean.py on every run), within the per-name budget. -/
+
+theorem source_walkers (p : Bytes) (off : Nat) :
+    (checkCompressedNameI p off).res = Tr.Name.check_compressed_name p off ∧
+    (checkCompressedNameI p off).steps ≤ DNS_MAX_HOSTNAME_INDIRECTIONS + DNS_MAX_HOSTNAME_LEN + 2 ∧
+    (checkUncompressedNameI p off).res = Tr.Name.check_uncompressed_name p off ∧
+    (checkUncompressedNameI p off).steps ≤ DNS_MAX_HOSTNAME_INDIRECTIONS + DNS_MAX_HOSTNAME_LEN + 2 :=
+  ⟨by rw [Tie.check_compressed_name_eq]; exact checkCompressedNameI_res p off, checkCompressedNameI_steps p off,
+   by rw [Tie.check_uncompressed_name_eq]; exact checkUncompressedNameI_res p off, checkUncompressedNameI_steps p off⟩
 
 end Dns.C18
 
